@@ -128,10 +128,27 @@ static struct cstl_dlist auxlist;
 static struct lelem auxel[8];
 static int reentrant;
 
+static int cmp_desc(const void *a, const void *b, void *p)
+{
+    const struct lelem *x = a, *y = b;
+    (void)p;
+    return (y->key > x->key) - (y->key < x->key);
+}
+
+static struct cstl_slist auxs; static struct cstl_dlist auxd2;
+static struct lelem auxse[6], auxde[6];
+
 static void reenter(const struct lelem *x)
 {
     struct lelem pr; const struct lelem *f;
     int saved = g_inlib;
+    /* ... and sorts two small independent lists in DESCENDING order: a sort that parks its comparator in shared
+     * state would finish the outer sort under the wrong ordering */
+    g_inlib = 1;
+    cstl_slist_sort(&auxs, cmp_desc, (void *)&auxs);
+    cstl_dlist_sort(&auxd2, cmp_desc, (void *)&auxd2);
+    cstl_slist_reverse(&auxs); cstl_dlist_reverse(&auxd2);
+    g_inlib = saved;
     pr.key = x->key % 8;
     g_inlib = 1;
     f = cstl_dlist_find(&auxlist, &pr, cmp_plain, NULL, (x->key & 1) ? CSTL_DLIST_FOREACH_DIR_REV : CSTL_DLIST_FOREACH_DIR_FWD);
@@ -145,7 +162,7 @@ static int cmp_key(const void *a, const void *b, void *p)
     const struct lelem *x = a, *y = b;
     (void)p;
     if (reentrant) { CB_ENTER(); reenter(x); CB_LEAVE(); }
-    return (x->key > y->key) - (x->key < y->key);
+    return sim_cmp((x->key > y->key) - (x->key < y->key));
 }
 
 static int cmp_key_mod(const void *a, const void *b, void *p)
@@ -153,7 +170,7 @@ static int cmp_key_mod(const void *a, const void *b, void *p)
     const struct lelem *x = a, *y = b;
     int m = (int)(intptr_t)p;
     int kx = x->key % m, ky = y->key % m;
-    return (kx > ky) - (kx < ky);
+    return sim_cmp((kx > ky) - (kx < ky));
 }
 
 /* ------------------------------------------------------------- callbacks */
@@ -481,6 +498,11 @@ static void l_exec(const plan_t *p)
     if (p->cfg[CF_LONG] >> 8 & 1) {
         cstl_dlist_init(&auxlist, offsetof(struct lelem, dn));
         for (i = 0; i < 8; i++) { auxel[i].key = i; auxel[i].magic = MAGIC; g_inlib = 1; cstl_dlist_push_back(&auxlist, &auxel[i]); g_inlib = 0; }
+        cstl_slist_init(&auxs, offsetof(struct lelem, sn)); cstl_dlist_init(&auxd2, offsetof(struct lelem, dn));
+        for (i = 0; i < 6; i++) {
+            auxse[i].key = (i * 5) % 6; auxde[i].key = (i * 5) % 6;
+            g_inlib = 1; cstl_slist_push_back(&auxs, &auxse[i]); cstl_dlist_push_back(&auxd2, &auxde[i]); g_inlib = 0;
+        }
         reentrant = 1;
         PROBE("comparator_reenters_library");
     }
